@@ -79,7 +79,7 @@ type genKnobs struct {
 
 var (
 	termNames = []string{"user", "employee", "users", "device", "type", "bot", "u0", "u1"}
-	objNames  = []string{"doc", "docs", "folder", "group", "org", "relation", "team"}
+	objNames  = []string{"doc", "docs", "folder", "group", "org", "relation", "team", "Repo", "R", "RRole"}
 	relPool   = []string{"a", "b", "c", "member", "viewer", "view", "owner", "define", "ab"}
 	tsNames   = []string{"parent", "p", "from"}
 	condNames = []string{"c1", "c2", "cond"}
